@@ -86,7 +86,10 @@ def cells():
 
 CELLS = cells()
 
-TABLE_GEN = [(12, 5), (-7, 3), (6, 6), (3, -4), (0, 9), (2.5, 0.5), (-1.25, 4), (7, 0.25), (1.5, 1.5), (8, -0.5)]
+# (the last pairs need more than 53 bits: int / int is correctly rounded, float(int) / int is not)
+TABLE_GEN = [(12, 5), (-7, 3), (6, 6), (3, -4), (0, 9), (2.5, 0.5), (-1.25, 4), (7, 0.25), (1.5, 1.5), (8, -0.5),
+             (2 ** 62 + 6, 2 ** 9 + 1), (10 ** 22 + 3, 7), (-(2 ** 53) - 1, 3)]
+WIDE = [2 ** 53 + 1, 2 ** 62 + 6, 10 ** 22 + 3, -(2 ** 53) - 1, 2 ** 9 + 1, 3 ** 40, 2 ** 64 - 1]
 TABLE_BIT = [(12, 2), (-7, 3), (6, 6), (0, 4), (5, 0), (9, 1), (1, 8), (-3, 7)]
 
 
@@ -97,8 +100,8 @@ def enumerate_matrix(tier):
             yield {"op": op, "kind": kind, "a": a, "b": b, "src": "fiber" if i % 2 else "ctor"}
 
 
-_ints = st.integers(-1000, 1000)
-_nz_ints = st.one_of(st.integers(1, 1000), st.integers(-1000, -1))
+_ints = st.one_of(st.integers(-1000, 1000), st.integers(-1000, 1000), st.integers(-1000, 1000), st.sampled_from(WIDE))
+_nz_ints = st.one_of(st.integers(1, 1000), st.integers(-1000, -1), st.integers(1, 1000), st.sampled_from(WIDE))
 _floats = st.integers(-4000, 4000).map(lambda k: k / 16)
 _nz_floats = st.one_of(st.integers(1, 4000), st.integers(-4000, -1)).map(lambda k: k / 16)
 _num = st.one_of(_ints, _ints, _floats)
@@ -349,7 +352,13 @@ def fiber_cases(draw):
     f = [[c, child()] for c in cf]
     g = [[c, child()] for c in cg]
     s = draw(st.sampled_from([2, 3, -1, -2, 5, 1, 0, 0.5, -1.5, 0.25, 4.0]))
-    return {"depth": d, "shape": shape, "f": f, "g": g, "s": s,
+    # (the left operand may carry a narrowed active range, as a partition of a split does: the statement speaks
+    # of the whole shape / the stored elements, not of the active range)
+    a0 = draw(st.integers(0, shape[0]))
+    factive = draw(st.sampled_from([None, None, [a0, draw(st.integers(a0, shape[0]))]]))
+    if factive == [0, 0]:
+        factive = None
+    return {"depth": d, "shape": shape, "f": f, "g": g, "s": s, "factive": factive,
             "sbox": draw(st.booleans()), "owned": d == 1 and draw(st.booleans())}
 
 
@@ -419,8 +428,11 @@ def check_fibers(case, rec):
         if case["owned"]:
             f = build.leaf_fiber([c for c, _ in tf], [v for _, v in tf], shape=shape[0], owned=True)
             keep.append(f)
-            return f
-        return build.nested_fiber(tf, d, shape, 0)
+        else:
+            f = build.nested_fiber(tf, d, shape, 0)
+        if case.get("factive"):
+            f.setActive(tuple(case["factive"]))
+        return f
 
     def mk_g():
         return build.nested_fiber(tg, d, shape, 0)
